@@ -521,6 +521,11 @@ func (s Snap) Content() string {
 	return strings.Join([]string{s.CheckIDs, fmt.Sprint(s.Len), s.BagState, s.Bag, s.ValState, s.Values, s.Flags, s.Meta}, "\x1f")
 }
 
+// ContentNoBag is Content without the Bag (annotation cache): what C12's statement observes directly.
+func (s Snap) ContentNoBag() string {
+	return strings.Join([]string{s.CheckIDs, fmt.Sprint(s.Len), s.ValState, s.Values, s.Flags, s.Meta}, "\x1f")
+}
+
 // DeepHash walks everything reachable from the schema through gozod-defined types (unexported
 // fields included) and digests contents and pointer identities.
 func DeepHash(s any) uint64 {
@@ -541,9 +546,11 @@ func deep(h hasher, v reflect.Value, seen map[uintptr]bool, d int) {
 	if !v.IsValid() || d > 40 {
 		return
 	}
-	w := func(f string, a ...any) { fmt.Fprintf(h.(interface {
-		Write([]byte) (int, error)
-	}), f, a...) }
+	w := func(f string, a ...any) {
+		fmt.Fprintf(h.(interface {
+			Write([]byte) (int, error)
+		}), f, a...)
+	}
 	switch v.Kind() {
 	case reflect.Ptr:
 		if v.IsNil() {
